@@ -1,12 +1,14 @@
 """C15 — stores never lose an update (first sentence; watcher delivery under concurrency is outside, DESIGN.md section 7)."""
 import driver
+from props import c03
 
 
 def run(ctx):
     H = driver.Harness
     hs = [H('VerifC15Transaction', 'pkg/store/v2/transaction', {'pkg/store/v2/transaction/zz_verif_c15.go': 'c15/zz_verif_c15_tx.go'}, unwind=8),
           H('VerifC15Proposal', 'pkg/store/v2/proposal', {'pkg/store/v2/proposal/zz_verif_c15.go': 'c15/zz_verif_c15_prop.go'}, unwind=8),
-          H('VerifC15Configuration', 'pkg/store/v2/configuration', {'pkg/store/v2/configuration/zz_verif_cfgstore.go': 'c03/zz_verif_cfgstore.go'}, unwind=12)]
+          H('VerifC15Configuration', 'pkg/store/v2/configuration', {'pkg/store/v2/configuration/zz_verif_cfgstore.go': 'c03/zz_verif_cfgstore.go', 'pkg/store/v2/configuration/zz_verif_cfgclient.go': 'c03/zz_verif_cfgclient_sym.go|c03/zz_verif_cfgclient_native.go'}, unwind=12,
+            opts={'cuts': {c03.BUILDER_GET: 'atomix-map-by-name', c03.PROTO_CODEC: 'noop'}})]
     if ctx.only:
         hs = [h for h in hs if h.entry in ctx.only]
     driver.check_harnesses(ctx, hs)
